@@ -497,3 +497,225 @@ Example ex_image_real_reader :
   | None => False
   end.
 Proof. exact ExampleReal.ex_real_reader. Qed.
+
+(* ------------------------------------------------------------------------------------------ *)
+(* C08 x Util: the fragment hash table IS lib/util/src/hash_table.c                             *)
+(* ------------------------------------------------------------------------------------------ *)
+(* Everything above models proc->frag_ht as an association list ([ht_search]: first entry in insertion order with
+   equal hash for which chunk_info_equals says yes; [ht_insert]: replace it, else append) and ASSUMED that
+   hash_table.c behaves like that.  coq/Util/HashModel.v is a statement-by-statement model of hash_table.c (open
+   addressing, double hashing in 32 bit arithmetic, the stashed first available slot, grow / same-size rehash, the
+   rows of hash_sizes[] generated from the .c file) with proved contracts (Properties_C19.v) and its own exact tie.
+   This section replaces the assumption by theorems (coq/C08/HashBridge*.v):
+
+   (a) container level, any entry type, any PURE boolean callback: if at most one live entry answers the key, the
+       table's search returns the slot holding exactly the entry the list's search returns (NULL iff none) and the
+       table's insert - whatever rehash it performs - leaves a table that represents the list after [l_insert]
+       (replace the matching entry by the new key AND data, else add);
+   (b) the hypothesis of (a) holds along every run: the live entries are pairwise different as (checksum, bytes) - a
+       NEW invariant (C08's notes claimed it, its PInv does not contain it), proved for every checksum function,
+       flag assignment (incl. DONT_DEDUPLICATE, where the insert does replace) and schedule;
+   (c) end to end: the block processor model with the REAL table in place of the list ([r_pack],
+       coq/C08/HashBridgeModel.v) succeeds whenever [pack] does, ends in the same state (all fields except the
+       list and the cache, which it does not have), with a well-formed table whose live entries are exactly the
+       list's chunks (key = data), and every file reads back byte-exact from it: dedup_sound for the real table.
+
+   Hypotheses that are new: the checksum is a 32 bit value (sqfs_u32 in the C code; the list model did not care) and
+   there are at most 2^30 files (Util's ht_safe_limit: in the last row of hash_sizes[] the 32 bit probing
+   arithmetic wraps - Properties_C19.hash_table_last_row_wraps).
+
+   What stays outside (see coq/C08/HashBridgeModel.v): Util's callback is a pure function.  chunk_info_equals (1)
+   leaves the last re-read fragment block in cached_frag_blk: the real-table model evaluates it without cache;
+   the answer is the same for every coherent cache content ([cb_cache_irrelevant]), which content the real probing
+   order leaves behind is not modelled; (2) can fail (fblk_lookup_error): it then answers false until the table
+   operation ends (so search returns NULL / insert adds the entry) and process_completed_fragment returns the
+   error; the real-table model fails if the callback would fail on ANY live entry of that hash (a superset of the
+   entries hash_table.c probes), and (c) proves that it does not fail.  Allocation failure is not modelled. *)
+From SqfsV Require Import Util.FastRem Util.HashRows Util.HashInv.
+From SqfsV Require Util.HashModel.
+From SqfsV Require Import C08.HashBridge C08.HashBridgeModel C08.HashBridgeTheorems.
+From Coq Require Import Permutation.
+
+(* ---- (a) the association list against the table ---------------------------------------------- *)
+Theorem assoc_list_search_is_table_search :
+  forall (E : Type) (hash_of : E -> N) (keq : E -> E -> bool) (l : list E) (t : HashModel.htab E E) (h : N) (key : E),
+  Rep hash_of l t -> (h < two32)%N -> at_most_one hash_of (keq key) h l ->
+  exists r, HashModel.ht_search E E keq t h key = HashModel.Ok r /\
+    match r with
+    | Some a => exists c, HashModel.ht_entry E E t a = Some (h, c, c) /\ l_search hash_of (keq key) h l = Some c
+    | None => l_search hash_of (keq key) h l = None
+    end.
+Proof. exact bridge_search. Qed.
+Print Assumptions assoc_list_search_is_table_search.
+
+Theorem assoc_list_insert_is_table_insert :
+  forall (E : Type) (hash_of : E -> N) (keq : E -> E -> bool) (l : list E) (t : HashModel.htab E E) (nc : E),
+  Rep hash_of l t -> (hash_of nc < two32)%N -> (N.of_nat (length l) < ht_safe_limit)%N ->
+  at_most_one hash_of (keq nc) (hash_of nc) l ->
+  exists t' a,
+    HashModel.ht_insert E E keq t (hash_of nc) nc nc = HashModel.Ok (t', Some a) /\
+    HashModel.ht_entry E E t' a = Some (hash_of nc, nc, nc) /\
+    Rep hash_of (l_insert hash_of (keq nc) nc l) t'.
+Proof. exact bridge_insert. Qed.
+Print Assumptions assoc_list_insert_is_table_insert.
+
+(* hash_table_create represents the empty list *)
+Theorem empty_table_is_empty_list :
+  forall (E : Type) (hash_of : E -> N), exists t, HashModel.ht_create E E = Some t /\ Rep hash_of [] t.
+Proof. exact Rep_create. Qed.
+Print Assumptions empty_table_is_empty_list.
+
+(* ---- (c) frag_table_is_real_hash_table -------------------------------------------------------- *)
+Theorem frag_table_is_real_hash_table :
+  forall (hashf : list N -> N)
+         (compress : list N -> option (list N)) (uncompress : list N -> nat -> option (list N))
+         (bs half : nat),
+  (forall b c, compress b = Some c ->
+     length c < length b /\ forall n, length b <= n -> uncompress c n = Some b) ->
+  0 < bs -> (N.of_nat bs <= c_SQFS_MAX_BLOCK_SIZE)%N -> 0 < half ->
+  (forall d, (hashf d < two32)%N) ->
+  forall (file0 : list N) (files : list (uflags * list N)) (sched : list nat),
+  (N.of_nat (length files) <= ht_safe_limit)%N ->
+  exists st t,
+    pack hashf compress uncompress bs false true half file0 files sched = DedupModel.Ok st /\
+    r_pack hashf compress uncompress bs false true half file0 files sched = ROk (strip st, t) /\
+    wf chunk chunk t /\
+    Permutation (HashModel.live chunk chunk t) (map (ent ck_hash) (p_ht st)) /\
+    (forall fid fl d, nth_error files fid = Some (fl, d) ->
+                      read_back uncompress bs (strip st) fid (length d) = Some d) /\
+    firstn (length file0) (w_file (p_wr (strip st))) = file0.
+Proof. exact frag_table_real_l. Qed.
+Print Assumptions frag_table_is_real_hash_table.
+
+(* ---- (b) frag_table_agrees_between_files ------------------------------------------------------- *)
+(* at every point between two files of a run (any prefix, any schedule): the real-table model has reached the same
+   state, its table represents the list, and for EVERY search key (any bytes, any 32 bit checksum): at most one
+   live entry answers yes, the callback fails on none, and hash_table_search returns the slot holding (hash, c, c)
+   for the very chunk c C08's [ht_search] returns - NULL iff that returns none *)
+Theorem frag_table_agrees_between_files :
+  forall (hashf : list N -> N)
+         (compress : list N -> option (list N)) (uncompress : list N -> nat -> option (list N))
+         (bs half : nat),
+  (forall b c, compress b = Some c ->
+     length c < length b /\ forall n, length b <= n -> uncompress c n = Some b) ->
+  0 < bs -> (N.of_nat bs <= c_SQFS_MAX_BLOCK_SIZE)%N -> 0 < half ->
+  (forall d, (hashf d < two32)%N) ->
+  forall (file0 : list N) (files : list (uflags * list N)) (n : nat) (sched : list nat) (st : proc)
+         (t0 : HashModel.htab chunk chunk),
+  (N.of_nat (length files) <= ht_safe_limit)%N ->
+  HashModel.ht_create chunk chunk = Some t0 ->
+  run_files hashf compress uncompress bs false true half
+            (firstn n (map (fun f => file_job bs (fst f) (snd f)) files)) sched 0 (init_proc file0)
+  = DedupModel.Ok st ->
+  exists t,
+    r_run_files hashf compress uncompress bs false true half
+            (firstn n (map (fun f => file_job bs (fst f) (snd f)) files)) sched 0
+            (strip (init_proc file0)) t0 = ROk (strip st, t) /\
+    wf chunk chunk t /\
+    Permutation (HashModel.live chunk chunk t) (map (ent ck_hash) (p_ht st)) /\
+    forall (cur : list N) (khash : N), (khash < two32)%N ->
+      let key := skey (length cur) khash in
+      at_most_one ck_hash (keq_of uncompress bs true st cur key) khash (p_ht st) /\
+      (forall c, In c (p_ht st) -> cb uncompress bs true st cur key c <> EqErr) /\
+      match DedupModel.ht_search uncompress bs true st (p_cached st) (length cur) khash cur (p_ht st) with
+      | SFound c _ =>
+        exists a, HashModel.ht_search chunk chunk (keq_of uncompress bs true st cur) t khash key
+                  = HashModel.Ok (Some a) /\
+                  HashModel.ht_entry chunk chunk t a = Some (khash, c, c)
+      | SNone _ =>
+        HashModel.ht_search chunk chunk (keq_of uncompress bs true st cur) t khash key = HashModel.Ok None
+      | SErr => False
+      end.
+Proof. exact frag_table_steps_l. Qed.
+Print Assumptions frag_table_agrees_between_files.
+
+(* ---- non-vacuity --------------------------------------------------------------------------------- *)
+(* the new hypotheses are met by the instance below (the compressor contract: toy_compressor_contract above) *)
+Example ex_real_table_hyps :
+  (forall d, (const_hash d < two32)%N) /\
+  (N.of_nat (length ex_bridge_files) <= ht_safe_limit)%N /\
+  (N.of_nat 4 <= c_SQFS_MAX_BLOCK_SIZE)%N.
+Proof. exact ex_bridge_hyps. Qed.
+
+(* constant checksum (every fragment collides with every other), toy compressor, block size 4, eight files with
+   the tail ends [1] [2] [3] | [1] again (found) | [2] again with DONT_DEDUPLICATE (stored anew: the entry for
+   [2] is REPLACED) | [4] | [5 5] | [3] again (found, fragment block 0 by then on disk): the list model and the
+   real-table model end in the same state; five live entries, key = data; the table (created with 5 slots) has
+   been resized twice (7, then 13 slots) *)
+Example ex_real_table_run :
+  match pack const_hash toy_compress toy_uncompress 4 false true 4096 [7; 7; 7]%N ex_bridge_files ex_bridge_sched,
+        r_pack const_hash toy_compress toy_uncompress 4 false true 4096 [7; 7; 7]%N ex_bridge_files ex_bridge_sched with
+  | DedupModel.Ok st, ROk (sr, t) =>
+    obs sr = obs st /\ p_ht sr = [] /\ p_cached sr = None /\
+    map (p_frag st) (seq 0 8) =
+      [Some (0, 0); Some (0, 1); Some (0, 2); Some (0, 0); Some (0, 3); Some (1, 0); Some (1, 1);
+       Some (0, 2)] /\
+    map (fun c => (ck_index c, ck_offset c, ck_size c)) (p_ht st) =
+      [(0, 0, 1); (0, 3, 1); (0, 2, 1); (1, 0, 1); (1, 1, 2)] /\
+    sort_chunks (map (fun e => snd (fst e)) (HashModel.live chunk chunk t)) = sort_chunks (p_ht st) /\
+    forallb (fun e => match e with (h, k, d) =>
+                        N.eqb h (ck_hash k) && (ck_index k =? ck_index d) && (ck_offset k =? ck_offset d) end)
+            (HashModel.live chunk chunk t) = true /\
+    HashModel.ht_size_index chunk chunk t = 2 /\ HashModel.ht_size chunk chunk t = 13%N /\
+    HashModel.ht_entries chunk chunk t = 5%N /\
+    read_back toy_uncompress 4 sr 4 1 = Some [2]%N /\ read_back toy_uncompress 4 sr 6 2 = Some [5; 5]%N
+  | _, _ => False
+  end.
+Proof. exact ex_bridge_run. Qed.
+
+(* the two containers side by side on an operation sequence with colliding hashes (4, 4, 4 and 9 = 4 mod 5),
+   a replaced entry and two resizes: per step the list's answer, the table's answer (entry->data of the slot
+   returned) and the number of slots - the answers agree at every step *)
+Example ex_containers_step_by_step :
+  match HashModel.ht_create eN eN with
+  | Some t0 =>
+    let tr := run_both ex_ops [] t0 in
+    length tr = length ex_ops /\
+    forallb (fun x => match x with
+                      | (Some a, Some b, _) => N.eqb (fst a) (fst b) && N.eqb (snd a) (snd b)
+                      | (None, None, _) => true
+                      | _ => false
+                      end) tr = true /\
+    map (fun x => snd x) tr = [5; 5; 5; 5; 7; 7; 7; 7; 7; 7; 13; 13; 13; 13; 13]%N /\
+    map (fun x => fst (fst x)) tr =
+      [Some (4, 1); Some (4, 2); Some (4, 2); None; Some (9, 3); Some (4, 1); Some (4, 2); Some (9, 3);
+       Some (4, 2); Some (11, 4); Some (4, 5); Some (4, 5); Some (4, 1); Some (11, 4); None]%N
+  | None => False
+  end.
+Proof. exact ex_containers_agree. Qed.
+
+(* [at_most_one] is necessary: with two live entries matching the key (wildcard id 0) the list answers the first
+   INSERTED, hash_table.c the first PROBED, and the resize 5 -> 7 slots re-inserts in slot order, which swaps them *)
+Example ex_probe_order_is_not_insertion_order :
+  match HashModel.ht_create eN eN with
+  | Some t0 =>
+    let tr := run_both [BInsert (4, 1); BInsert (4, 2); BInsert (0, 3); BSearch (4, 0)]%N [] t0 in
+    nth 3 tr (None, None, 0%N) = (Some (4, 1), Some (4, 2), 7)%N /\
+    ~ at_most_one fst (ex_keq (4, 0)%N) 4%N [(4, 1); (4, 2); (0, 3)]%N
+  | None => False
+  end.
+Proof. exact ex_probe_order_differs. Qed.
+
+(* frag_table_agrees_between_files on a computed instance: after the first five files of ex_bridge_files (the entry for
+   [2] has just been replaced by the chunk at (0,3); the table has 7 slots) a search for the bytes [2] finds that chunk
+   in the list and a slot holding it as key and data in the table; a search for [9] finds nothing on either side *)
+Example ex_between_files :
+  match HashModel.ht_create chunk chunk with
+  | Some t0 =>
+    let jobs5 := firstn 5 (map (fun f => file_job 4 (fst f) (snd f)) ex_bridge_files) in
+    match run_files const_hash toy_compress toy_uncompress 4 false true 4096 jobs5 ex_bridge_sched 0 (init_proc [7; 7; 7]%N),
+          r_run_files const_hash toy_compress toy_uncompress 4 false true 4096 jobs5 ex_bridge_sched 0
+                      (strip (init_proc [7; 7; 7]%N)) t0 with
+    | DedupModel.Ok st, ROk (sr, t) =>
+      let c2 := {| ck_index := 0; ck_offset := 3; ck_size := 1; ck_hash := 0%N |} in
+      (exists ca, DedupModel.ht_search toy_uncompress 4 true st (p_cached st) 1 0%N [2]%N (p_ht st) = SFound c2 ca) /\
+      (exists a, HashModel.ht_search chunk chunk (keq_of toy_uncompress 4 true st [2]%N) t 0%N (skey 1 0%N)
+                 = HashModel.Ok (Some a) /\ HashModel.ht_entry chunk chunk t a = Some (0%N, c2, c2)) /\
+      (exists ca, DedupModel.ht_search toy_uncompress 4 true st (p_cached st) 1 0%N [9]%N (p_ht st) = SNone ca) /\
+      HashModel.ht_search chunk chunk (keq_of toy_uncompress 4 true st [9]%N) t 0%N (skey 1 0%N) = HashModel.Ok None /\
+      HashModel.ht_size chunk chunk t = 7%N
+    | _, _ => False
+    end
+  | None => False
+  end.
+Proof. exact ex_bridge_between. Qed.
